@@ -216,4 +216,23 @@ def oracle(case):
     return (cl, overrun_then_regular or wrap or n_inds >= 2, None)
 
 
-SUBS = [Sub("virtual_clock_runs", strategy=case_st(), oracle=oracle, examples={"quick": 1500, "thorough": 40000})]
+def long_runs(ctx, rec):
+    """a few very long runs (tick counters beyond 2^16, several hours of virtual time): same oracle"""
+    from harness.core import Failure
+    fails = []
+    cases = [{"start": (ctx.seed * 7919) % H, "period": 102, "links": 2, "cycles": [70000], "durs": [0], "t0": 0},
+             {"start": H - 30000, "period": 51, "links": 1, "cycles": [66000], "durs": [1000, 4000000, 0, 5000000, 100], "t0": 2 ** 40}]
+    if ctx.tier == "thorough":
+        cases.append({"start": 0, "period": 300, "links": 3, "cycles": [300000, 5], "durs": [4614000, 0, 4616000], "t0": 123})
+    for c in cases:
+        try:
+            cl, nt, _ = oracle(c)
+            rec.note(c, cl + ["long-run"], True)
+        except Violation as v:
+            fails.append(Failure("long_runs", c, v.sig, v.msg))
+    return fails
+
+
+SUBS = [Sub("virtual_clock_runs", strategy=case_st(), oracle=oracle, examples={"quick": 1500, "thorough": 40000}),
+        Sub("long_runs", fn=long_runs)]
+SUBS[1].replay = oracle
